@@ -62,6 +62,7 @@ impl Prop for C01 {
                 prof("counters", 32_000),
                 prof("signals", 32_000),
                 prof("candidates", 40_000),
+                prof("many", 2_000),
             ],
             Tier::Thorough => vec![
                 prof("const", 800_000),
@@ -69,6 +70,7 @@ impl Prop for C01 {
                 prof("counters", 400_000),
                 prof("signals", 400_000),
                 prof("candidates", 400_000),
+                prof("many", 30_000),
             ],
         }
     }
@@ -89,6 +91,14 @@ impl Prop for C01 {
                 })
                 .boxed();
         }
+        if profile == "many" {
+            // more machines than a machine word has bits; signals, ends, counters and limits
+            let mut mp = MachineParams { max_states: 2, w_signal: 3, w_end: 1, p_counter: 0.3, p_limit: 0.3, ..MachineParams::default() };
+            mp.p_trans = [0.3; 13];
+            mp.p_trans[12] = 0.6;
+            let hp = HistParams { max_calls: 8, max_batch: 6, ..HistParams::default() };
+            return fw_case(65..=140, &mp, &hp, true, 4);
+        }
         let (mp, hp, w) = params(profile);
         fw_case(0..=5, &mp, &hp, true, w)
     }
@@ -103,6 +113,9 @@ impl Prop for C01 {
             }
         };
         let n = machines.len();
+        if n > 64 {
+            obs.hit("more_than_64_machines");
+        }
         let total_events: u64 = case.calls.iter().map(|c| c.events.len() as u64 + 1).sum();
         let budget = case.words.len() as u64 + 100_000 + 20_000 * total_events * (n as u64 + 1);
         let mut run = match FwRun::new(case, machines, Some(budget)) {
@@ -203,6 +216,7 @@ impl Prop for C01 {
 
     fn required_classes() -> Vec<&'static str> {
         vec![
+            "more_than_64_machines",
             "returned_action",
             "unknown_id",
             "backwards_clock",
